@@ -1199,8 +1199,10 @@ unaryexpr(struct scope *s)
 			if (t) {
 				expect(TRPAREN, "after type name");
 				/* might be part of a compound literal */
-				if (op == TSIZEOF && tok.kind == TLBRACE)
+				if (op == TSIZEOF && tok.kind == TLBRACE) {
+					t = unsharearray(t);
 					parseinit(s, t);
+				}
 				e = NULL;
 			} else {
 				e = expr(s);
@@ -1260,6 +1262,7 @@ castexpr(struct scope *s)
 		}
 		expect(TRPAREN, "after type name");
 		if (tok.kind == TLBRACE) {
+			t = unsharearray(t);
 			e = mkexpr(EXPRCOMPOUND, t, NULL);
 			e->toeval = toeval;
 			e->qual = tq;
